@@ -8,4 +8,11 @@ require (
 	github.com/basecomplextech/spec v0.0.0
 )
 
+require (
+	github.com/mattn/go-isatty v0.0.20 // indirect
+	golang.org/x/sys v0.22.0 // indirect
+	gopkg.in/natefinch/lumberjack.v2 v2.2.1 // indirect
+	gopkg.in/yaml.v3 v3.0.1 // indirect
+)
+
 replace github.com/basecomplextech/spec => /repo
